@@ -8,7 +8,8 @@ import random
 from symex.case import Case
 from symex import eqlshapes as S
 from symex import querycase as Q
-from symex.eqlshapes import an, entity, set_of, let, symbolic_mode
+from symex.eqlshapes import an, entity, set_of, let, symbolic_mode, and_
+from entity_query_language import for_all
 from symex.alg import MIRROR
 from props.c02 import xy_leaves, single_leaves
 
@@ -73,6 +74,10 @@ def single_rewrites(spec):
                 out.append(("contains->in@%s" % (path,), dict(spec, cond=_replace(cond, path, ["in", node[2], node[1]]))))
         if cond[0] == "and" and not spec.get("multi"):
             out.append(("conditions-passed-separately", dict(spec, multi=True)))
+    if spec.get("forall"):
+        out.append(("quantifier-operand-position", dict(spec, forall_pos="first" if spec.get("forall_pos", "last") == "last" else "last")))
+        if cond and not spec.get("multi"):
+            out.append(("quantifier-passed-separately", dict(spec, multi=True)))
     if len(spec["vars"]) > 1:
         out.append(("declaration-order", dict(spec, vars=dict(reversed(list(spec["vars"].items()))))))
     if len(spec["select"]) > 1:
@@ -105,6 +110,15 @@ def build(spec, pools):
             conds = [S.build(s, V) for s in cond[1:]]
         else:
             conds = [S.build(cond, V)]
+        fa = spec.get("forall")
+        if fa:
+            order = spec.get("perm", {}).get("U", list(range(len(pools["U"]))))
+            Vu = dict(V)
+            Vu["u"] = let(type(pools["U"][0]), domain=[pools["U"][i] for i in order])
+            quant = for_all(Vu["u"], S.build(fa, Vu))
+            conds = ([quant] + conds) if spec.get("forall_pos", "last") == "first" else (conds + [quant])
+            if not spec.get("multi") and len(conds) > 1:
+                conds = [and_(*conds)]
         if len(sel) == 1 and spec.get("form", "entity") == "entity":
             q = an(entity(sel[0], *conds))
         else:
@@ -123,7 +137,8 @@ class C18(Case):
     def run(self, mk):
         sp = self.spec
         base, rew = sp["base"], sp["rewritten"]
-        pools = Q.make_pools(mk, base)
+        pools = Q.make_pools(mk, dict(base, cond=["and", base["cond"], base["forall"]] if (base.get("forall") and base.get("cond"))
+                                      else (base.get("forall") or base.get("cond"))))
         data = dict(pools=pools)
         out = {}
         try:
@@ -148,7 +163,16 @@ class C18(Case):
             cond = s.get("cond")
 
             def sat(sigma, s=s, cond=cond):
-                return Q.holds(alg, cond, Q.env_of(sigma, s, pools), allobjs) if cond else alg.const(True)
+                env = Q.env_of(sigma, s, pools)
+                t = Q.holds(alg, cond, env, allobjs) if cond else alg.const(True)
+                if s.get("forall"):
+                    ts = []
+                    for uo in pools["U"]:
+                        e2 = dict(env)
+                        e2["u"] = uo
+                        ts.append(Q.holds(alg, s["forall"], e2, allobjs))
+                    t = alg.and_(t, *ts)
+                return t
             obs += Q.row_obligations(alg, data[tag], s, pools, sat, demand_no_dup=False, prefix=tag + ":")
         return obs
 
@@ -188,6 +212,11 @@ def base_queries(tier, rnd):
             out.append(dict(TWO, cond=[op] + list(tri)))
     out.append(dict(TWO, cond=["and", ["or", SX[0], SY[0]], ["or", SX[1], SY[1]]]))
     out.append(dict(TWO, cond=None))
+    # a universally quantified condition (its domain can be permuted, it can stand on either side of and_)
+    FA = dict(pools={"X": 3, "U": 3}, classes={"U": "Other"}, vars={"x": "X"}, select=[["v", "x"]])
+    for fc in (["cmp", "gt", ["a", "x", "a"], ["a", "u", "a"]], ["cmp", "ne", ["a", "x", "b"], ["a", "u", "b"]]):
+        out.append(dict(FA, cond=["cmp", "gt", ["a", "x", "c"], ["lit", 0]], forall=fc))
+        out.append(dict(FA, cond=None, forall=fc))
     # three variables, partial selections, chains whose inner disjunction does not mention the outer variable
     THREE = dict(pools={"X": 2, "Y": 2, "W": 2}, classes={"W": "Other"}, refs={"X": "Y"}, vars={"x": "X", "y": "Y", "w": "W"})
     SW = ["cmp", "gt", ["a", "w", "a"], ["lit", 0]]
